@@ -9,7 +9,11 @@ Case kinds (all JSON-able, self-contained):
   cart     Cartesian coefficient set -> surface(cartesian_to_polar(cart)) == sum_i basis_i cart_i and the
            Cartesian -> polar -> Cartesian round trip is the same function; basis columns follow the label list
   alias    one of the sites that accept coefficient dictionaries -> 'defocus' = -C10, other aliases 1:1,
-           nothing else becomes non-zero, unknown keys rejected
+           nothing else becomes non-zero, unknown keys rejected.  Sites that return the canonical dictionary are
+           compared with the harness's own alias table; the public fitting / search entry points of
+           DirectPtychography (xcorr_fit, grid_search, optuna_search) are judged by what the alias rule implies:
+           alias dictionary and canonical dictionary give the same fit, and the coefficients left in force are
+           evaluated by aberration_surface as the surface of their alias-resolved form
   fit      _return_lateral_shifts(rot, {C10, C12, phi12}) -> fit_aberrations_from_shifts returns the generators
 """
 
@@ -27,10 +31,11 @@ from vq.refs import c12_ref as R
 
 # float64 paths: every quantity compared is a sum of <= 25 terms each computed to a few ulp of its own
 # amplitude; the unit of comparison is the sum of the term amplitudes at the point (R.scale_*).  Measured on
-# the clean tree: <= 3e-15 of that unit (see meta); 1e-10 leaves > 4 orders of head-room and every
+# the clean tree: <= 8.2e-15 of that unit (see meta); 1e-10 leaves 4 orders of head-room and every
 # representation error of interest is O(1) in that unit.
 TOL64 = 1e-10
-# float32 fit (spatial_frequencies, shifts and lstsq are float32): measured <= 4e-6 relative; see meta.
+# float32 fit (spatial_frequencies, shifts and lstsq are float32): measured <= 4.9e-6 over 20 000 targeted
+# cases (20x head-room); the mutants of interest are O(1).  See meta.
 TOL_FIT = 1e-4
 
 SITES = [
@@ -48,6 +53,10 @@ SITES = [
 # separately, with its own small budget
 XCORR = "xcorr_fit"
 SEARCH = ("grid_search", "optuna_search")
+# known-finding keys: when one of these is recorded as an open finding the generator leaves out exactly that
+# site (counted under excluded_by_construction); `check` itself never looks at them
+K_XCORR = "xcorr-fit-alias-seed-shifts"
+K_SEARCH = "search-writeback-alias"
 
 
 def target(value, label):
@@ -972,6 +981,9 @@ def _singletons(ctx):
             check(ctx, {"kind": "cart", "items": [[lab, val]], "wavelength": lam, "pts_seed": 2000 + i, "npts": 64, "singleton": lab})
     # every alias alone at every site
     for site in SITES + [XCORR]:
+        if site == XCORR and ctx.is_open(K_XCORR):
+            ctx.exclude(K_XCORR, len(R.ALIASES))
+            continue
         for alias in R.ALIASES:
             case = {"kind": "alias", "site": site, "items": [[alias, 123.5]]}
             if site == XCORR:
@@ -986,6 +998,9 @@ def _singletons(ctx):
             else:
                 check(ctx, case)
     for site in SEARCH:
+        if ctx.is_open(K_SEARCH):
+            ctx.exclude(K_SEARCH, len(R.ALIASES))
+            continue
         for alias in R.ALIASES:
             rng_ = {"low": 0.2, "high": 0.9, "n": 2} if alias.endswith("angle") else {"low": 100.0, "high": 300.0, "n": 2}
             if site == "optuna_search":
@@ -1002,5 +1017,11 @@ def search(ctx):
     core.run_given(ctx, "alias", alias_cases(), lambda c: check(ctx, c), ctx.n(900, 9000))
     core.run_given(ctx, "fit", fit_cases(), lambda c: check(ctx, c), ctx.n(500, 6000))
     # whole alignments / searches: ~0.5 s per case
-    core.run_given(ctx, "xcorr", xcorr_cases(), lambda c: check(ctx, c), ctx.n(12, 120))
-    core.run_given(ctx, "search", search_cases(), lambda c: check(ctx, c), ctx.n(14, 140))
+    if ctx.is_open(K_XCORR):
+        ctx.exclude(K_XCORR, ctx.n(12, 120))
+    else:
+        core.run_given(ctx, "xcorr", xcorr_cases(), lambda c: check(ctx, c), ctx.n(12, 120))
+    if ctx.is_open(K_SEARCH):
+        ctx.exclude(K_SEARCH, ctx.n(14, 140))
+    else:
+        core.run_given(ctx, "search", search_cases(), lambda c: check(ctx, c), ctx.n(14, 140))
